@@ -158,9 +158,13 @@ func c19OpaqueBodies(r *explore.Rec, q [4]string) {
 			continue
 		}
 		seen[c] = true
-		for _, kind := range []string{"raw", "comment"} {
-			src := q[2] + kind + q[3] + "a" + c + q[2] + "end" + kind + q[3] + "m" + q[2] + " " + kind + " " + q[3] + "b" + c + q[2] + " end" + kind + " " + q[3] + "z"
-			want := "a" + c + "mb" + c + "z"
+		for ki, kind := range []string{"raw", "comment", "raw", "comment"} {
+			c2 := c
+			if ki >= 2 {
+				c2 = "" // only the first block's body ends in such a character
+			}
+			src := q[2] + kind + q[3] + "a" + c + q[2] + "end" + kind + q[3] + "m" + q[2] + " " + kind + " " + q[3] + "b" + c2 + q[2] + " end" + kind + " " + q[3] + "z"
+			want := "a" + c + "mb" + c2 + "z"
 			if kind == "comment" {
 				want = "mz"
 			}
